@@ -1,10 +1,93 @@
 package main
 
-// Replay of solver models against the real code (go test -overlay; nothing is
-// written into /repo). Adapters live in /verif/replay/adapters/<name>.go.tmpl.
+// Replay of a failed obligation against the real code. The solvers mostly answer `unknown`
+// on the quantified obligations of this project, so there is rarely a model to concretise.
+// What is replayed instead is a stored scenario: /verif/replay/registry.json maps obligation
+// name prefixes to a Go test (kept under /verif/replay/) that drives the real function into
+// the situation the obligation speaks about. The test is injected with `go test -overlay`
+// (nothing is written into /repo) and run against the tree under check — including the
+// in-memory edits of a selftest mutant. A scenario that prints REPLAY-CONFIRMED is a failing
+// input; anything else leaves the violation marked `no-failing-input-found`.
 
-import "strings"
+import (
+	"context"
+	"encoding/json"
+	"fmt"
+	"os"
+	"os/exec"
+	"path/filepath"
+	"strings"
+	"time"
+)
+
+type replayEntry struct {
+	Match string `json:"match"` // substring of the obligation name
+	Test  string `json:"test"`  // path of the test file relative to /verif
+	Pkg   string `json:"pkg"`   // package directory relative to /repo
+	Run   string `json:"run"`   // -run pattern
+}
+
+func loadReplayRegistry(verif string) []replayEntry {
+	data, err := os.ReadFile(filepath.Join(verif, "replay", "registry.json"))
+	if err != nil {
+		return nil
+	}
+	var r []replayEntry
+	if json.Unmarshal(data, &r) != nil {
+		return nil
+	}
+	return r
+}
 
 func runReplay(c *Ctx, o *Oblig, b *strings.Builder) bool {
+	if os.Getenv("GOVC_NO_REPLAY") != "" {
+		return false
+	}
+	for _, re := range loadReplayRegistry(c.verif) {
+		if !strings.Contains(o.Name, re.Match) {
+			continue
+		}
+		ok, out := runScenario(c, re)
+		fmt.Fprintf(b, "\nreplay: stored scenario %s (%s in %s) run against the tree under check:\n%s\n", re.Test, re.Run, re.Pkg, out)
+		if ok {
+			fmt.Fprintf(b, "replay verdict: REPLAY-CONFIRMED (the scenario fails on the real code)\n")
+			return true
+		}
+		fmt.Fprintf(b, "replay verdict: not reproduced by this scenario\n")
+	}
 	return false
+}
+
+func runScenario(c *Ctx, re replayEntry) (bool, string) {
+	tmp, err := os.MkdirTemp("", "govc-replay")
+	if err != nil {
+		return false, err.Error()
+	}
+	defer os.RemoveAll(tmp)
+	ov := map[string]string{
+		filepath.Join(c.repo, re.Pkg, "zz_verif_replay_test.go"): filepath.Join(c.verif, re.Test),
+	}
+	i := 0
+	for path, data := range c.overlay {
+		f := filepath.Join(tmp, fmt.Sprintf("ov%d.go", i))
+		i++
+		if os.WriteFile(f, data, 0o644) != nil {
+			return false, "cannot write overlay file"
+		}
+		ov[path] = f
+	}
+	js, _ := json.Marshal(map[string]interface{}{"Replace": ov})
+	ovf := filepath.Join(tmp, "overlay.json")
+	os.WriteFile(ovf, js, 0o644)
+	ctx, cancel := context.WithTimeout(context.Background(), 5*time.Minute)
+	defer cancel()
+	cmd := exec.CommandContext(ctx, "go", "test", "-overlay", ovf, "-vet=off", "-count=1", "-timeout", "120s", "-run", re.Run, "./"+re.Pkg)
+	cmd.Dir = c.repo
+	cmd.Env = append(os.Environ(), "GOFLAGS=-mod=mod", "GOPROXY=off", "GOSUMDB=off", "GOTOOLCHAIN=local")
+	out, _ := cmd.CombinedOutput()
+	s := string(out)
+	if len(s) > 4000 {
+		s = s[:4000] + "…"
+	}
+	return strings.Contains(s, "REPLAY-CONFIRMED"), s
 }
